@@ -15,11 +15,14 @@ import cgroup
 from cprop import CompilerProp
 
 ID = "C02"
-LEAN_MODULES = ["FaxVerif.C02.Theorems", "FaxVerif.C02.TheoremsCursor"]
-LEAN_SOURCES = ["FaxVerif/C02", "FaxVerif/Cpp"]
+LEAN_MODULES = ["FaxVerif.C02.Theorems", "FaxVerif.C02.TheoremsCursor", "FaxVerif.C02.TheoremsWf"]
+LEAN_SOURCES = ["FaxVerif/C02", "FaxVerif/Cpp", "FaxVerif/Gen"]
 DRIVER = cgroup.DRIVER
 SETUP_MODULES = cgroup.DRIVER_IMPORTS  # what the driver imports
 THEOREMS = [
+    "FaxVerif.C02.compile_wellFormed",
+    "FaxVerif.C02.fragment_no_unbound",
+    "FaxVerif.C02.fragment_no_unbound_job",
     "FaxVerif.C02.wf_no_unbound",
     "FaxVerif.C02.wf_no_unbound_job",
     "FaxVerif.C02.block_scoped",
@@ -47,6 +50,10 @@ TRUSTED_BASE = [
 ]
 ASSUMPTIONS = ["the experiment headers declare what the metadata says (the mock EDM is generated from the same declarations)"]
 LEVEL_TEXT = (
+    "For the translator MODEL (Gen.compile on the fragment F0-lite, tied to the real translator's text on every run) acceptance by the "
+    "checker is itself a theorem — compile_wellFormed: for EVERY fragment query (First columns with their path-sensitive flag idiom "
+    "included), backend and injective name supply, WellFormed (compile …) = true; hence fragment_no_unbound(_job): no event and no "
+    "job over any event list can read an undeclared or uninitialised name. For programs beyond the fragment: "
     "Lean 4 theorem (wf_no_unbound): any package accepted by the verified checker WellFormed can never read an undeclared or "
     "uninitialised name, assign to an undeclared one or fill from an unset column, for all events and number models; the "
     "checker, the uniqueness check and the completeness checks run on the implementation's real output for every generated "
@@ -59,7 +66,7 @@ LEVEL_TEXT = (
     "token (declared_encloses) — tied to the real classes by differential execution of operation sequences on every run."
 )
 LEVEL_NOTE = (
-    "Proved: soundness of WellFormed w.r.t. the modelled semantics. Sampled: that every accepted query's output passes the checker. "
+    "Proved: soundness of WellFormed w.r.t. the modelled semantics; that the translator model's output is ALWAYS accepted (fragment F0-lite). Sampled: that the real translator's output beyond the fragment passes the checker (every generated query). "
     "Type consistency of uses against the declared data model is not proved; thorough tier compiles against a generated mock EDM. "
     "The checker is path-sensitive enough for the First() idiom (flags known true, guard facts `flag false => captured value "
     "initialised`, loop invariants checked by re-running the body): programs using First() are covered by the theorem too."
